@@ -164,7 +164,52 @@ impl Wire for i32 { open spec fn bytes(&self) -> Seq<u8> { leb(zz(*self as int))
 impl Wire for i64 { open spec fn bytes(&self) -> Seq<u8> { leb(zz(*self as int)) } }
 impl Wire for i128 { open spec fn bytes(&self) -> Seq<u8> { leb(zz(*self as int)) } }
 impl Wire for isize { open spec fn bytes(&self) -> Seq<u8> { leb(zz(*self as int)) } }
+impl Wire for str { open spec fn bytes(&self) -> Seq<u8> { lenpref(utf8(self@)) } }
+impl Wire for String { open spec fn bytes(&self) -> Seq<u8> { lenpref(utf8(self@)) } }
 impl Wire for char { open spec fn bytes(&self) -> Seq<u8> { leb(*self as u32 as nat) } }
+
+
+// ---------------------------------------------------------------- strings (rule R14)
+/// UTF-8 image of a character sequence: the bytes of a str are a function of its view, and UTF-8 is injective
+pub uninterp spec fn utf8(chars: Seq<char>) -> Seq<u8>;
+#[verifier::external_body]
+pub broadcast proof fn axiom_spec_bytes_utf8(s: &str)
+    ensures #[trigger] s.spec_bytes() == utf8(s@)
+{
+}
+/// Rust invariant: an allocated string holds at most isize::MAX bytes (stated per string TYPE, for values of that type;
+/// an arbitrary Seq<char> has no such bound)
+#[verifier::external_body]
+pub broadcast proof fn axiom_str_len_bound(s: &str)
+    ensures #[trigger] utf8(s@).len() <= usize::MAX, utf8(s@).len() <= isize::MAX
+{
+}
+#[verifier::external_body]
+pub broadcast proof fn axiom_string_len_bound(s: String)
+    ensures #[trigger] utf8(s@).len() <= usize::MAX, utf8(s@).len() <= isize::MAX
+{
+}
+#[verifier::external_body]
+pub proof fn axiom_utf8_injective(a: Seq<char>, b: Seq<char>)
+    requires utf8(a) == utf8(b)
+    ensures a == b
+{
+}
+/// rule R14: byte length of a string slice (`str::len`)
+#[verifier::external_body]
+pub fn verif_str_len(s: &str) -> (r: usize)
+    ensures r == utf8(s@).len()
+{ unimplemented!() }
+
+#[verifier::external_type_specification]
+#[verifier::external_body]
+pub struct ExFromUtf8Error(std::string::FromUtf8Error);
+/// String::from_utf8 accepts exactly the UTF-8 images and returns the string with that view
+pub assume_specification[ String::from_utf8 ](v: Vec<u8>) -> (r: Result<String, std::string::FromUtf8Error>)
+    ensures forall|c: Seq<char>| v@ == #[trigger] utf8(c) ==> (r matches Ok(s) && s@ == c);
+
+/// length-prefixed payload: LEB128 byte count, then the bytes
+pub open spec fn lenpref(p: Seq<u8>) -> Seq<u8> { leb(p.len()) + p }
 
 // ---------------------------------------------------------------- the Encoder trait (real declaration + contracts)
 //@ trait crates/serialize/src/encode.rs :: pub trait Encoder
@@ -237,6 +282,12 @@ impl Wire for char { open spec fn bytes(&self) -> Seq<u8> { leb(*self as u32 as 
 //@ ret r
 //@ sig
         ensures r is Ok ==> final(self).out() =~= old(self).out() + leb(v@.len()) + v@
+//@ member emit_str
+//@ ret r
+//@ sig
+        ensures r is Ok ==> final(self).out() =~= old(self).out() + lenpref(utf8(v@))
+//@ head
+        broadcast use axiom_spec_bytes_utf8, axiom_str_len_bound, lemma_cat_assoc;
 //@ end
 
 // ---------------------------------------------------------------- the Decoder trait
@@ -315,6 +366,23 @@ impl Wire for char { open spec fn bytes(&self) -> Seq<u8> { leb(*self as u32 as 
         proof {
             assert forall|v: bool, tail: Seq<u8>| #![trigger v.bytes() + tail] old(self).rest() == v.bytes() + tail implies
                 old(self).rest() == (if v { 1u8 } else { 0u8 }).bytes() + tail by {}
+        }
+//@ member read_str
+//@ ret r
+//@ sig
+        ensures
+            // on any input that starts with the image of a (representable) character sequence: exactly that string, exactly the rest
+            forall|c: Seq<char>, tail: Seq<u8>| #![trigger lenpref(utf8(c)) + tail]
+                utf8(c).len() <= usize::MAX && old(self).rest() == lenpref(utf8(c)) + tail ==>
+                (r matches Ok(w) && w@ == c && final(self).rest() == tail)
+//@ head
+        broadcast use lemma_cat_assoc;
+        proof {
+            assert forall|c: Seq<char>, tail: Seq<u8>| #![trigger lenpref(utf8(c)) + tail]
+                utf8(c).len() <= usize::MAX && old(self).rest() == lenpref(utf8(c)) + tail implies
+                old(self).rest() == (utf8(c).len() as usize).bytes() + (utf8(c) + tail) by {}
+            assert forall|p: Seq<u8>, tail: Seq<u8>| #![trigger p + tail]
+                (p + tail).subrange(0, p.len() as int) =~= p && tail_of(p + tail, p.len() as int) =~= tail by {}
         }
 //@ end
 
